@@ -17,6 +17,12 @@
  *        d<i>  lyd_free_tree of the instance at sibling position i
  *        r<j>  insert pool node j again (lyd_insert_child / lyd_insert_sibling)
  *        q<k>  lyd_find_sibling_val for key k -> 1 / 0
+ *        c<k>  add an instance with key k to the SOURCE list (a separate container / top-level chain), sorted insert
+ *        C<k>  append it to the source list with LYD_INSERT_NODE_LAST
+ *        p<o>  duplicate all source instances into the parent: o = 0 lyd_dup_siblings(first, parent, RECURSIVE), 1 + NO_LYDS,
+ *              2 + WITH_PARENTS, 3 lyd_dup_single of each instance in turn, 4 the same with NO_LYDS; at top level the
+ *              duplicates are made without parent and inserted with lyd_insert_sibling (lyds_merge). The duplicates get
+ *              their identities in source order.
  *        s<i>  lyd_unlink_siblings at the instance at position i (lyds_split when it is not the leader); it and ALL
  *              following siblings become the chain (one chain at a time; oracle only, not in the Coq model)
  *        m     insert the chain again (lyd_insert_child / lyd_insert_sibling of its first node -> lyd_move_nodes -> lyds_merge)
@@ -398,6 +404,8 @@ struct lst {
     struct lyd_node *cont;      /* the parent container when !top */
     struct lyd_node *first;     /* first top-level sibling when top */
     struct lyd_node *scratch;   /* second container instance used to create free-standing children */
+    struct lyd_node *src;       /* third container instance holding the source list (dup), !top */
+    struct lyd_node *srcfirst;  /* first node of the top-level source chain, top */
     const struct lysc_node *schema;
     struct lyd_node *inst[MAXT];
     int ninst;
@@ -480,8 +488,11 @@ state_check_dump(struct lst *s, struct lyd_node **pool, int npool, int show)
     for (i = 0; i < s->ninst; i++) {
         struct lyd_meta *mi = NULL;
 
-        lyds_get_rb_tree(s->inst[i], &mi);
-        if (mi) {
+        struct rb_node *ti = lyds_get_rb_tree(s->inst[i], &mi);
+
+        /* metadata with a NULL tree on another instance than the leader (the copy that LYD_DUP_NO_LYDS leaves on the
+         * duplicate of a leader) is never looked at by the library and not counted */
+        if (mi && (ti || !i)) {
             if (!nown) {
                 owner = i;
             }
@@ -669,6 +680,7 @@ run_lyds(struct vcase *c)
     if (!s->top) {
         lyd_new_inner(NULL, mod, "c", 0, &s->cont);
         lyd_new_inner(NULL, mod, "c", 0, &s->scratch);
+        lyd_new_inner(NULL, mod, "c", 0, &s->src);
         s->schema = lys_find_child(s->cont->schema, mod, s->ty, 0, 0, 0);
     } else {
         s->schema = lys_find_child(NULL, mod, s->ty, 0, 0, 0);
@@ -754,6 +766,81 @@ run_lyds(struct vcase *c)
                 do_insert(s, n);
                 printf("+");
             }
+        } else if ((tok[0] == 'c') || (tok[0] == 'C')) {
+            struct lyd_node *n;
+
+            if (tok[0] == 'c') {
+                if (s->top) {
+                    n = new_inst(NULL, s->ty, arg, 1);
+                    if (n && s->srcfirst) {
+                        lyd_insert_sibling(s->srcfirst, n, &s->srcfirst);
+                    } else if (n) {
+                        s->srcfirst = n;
+                    }
+                } else {
+                    n = new_inst(s->src, s->ty, arg, 1);
+                }
+            } else {
+                n = new_free_inst(s, arg);
+                if (n) {
+                    struct lyd_node *fs = s->top ? s->srcfirst : lyd_child(s->src);
+
+                    lyd_insert_node(s->top ? NULL : s->src, &fs, n, LYD_INSERT_NODE_LAST);
+                    if (s->top) {
+                        s->srcfirst = fs;
+                    }
+                }
+            }
+            printf(n ? "+" : "E");
+        } else if (tok[0] == 'p') {
+            struct lyd_node *sf = s->top ? s->srcfirst : lyd_child(s->src), *it, *dup = NULL;
+            struct lyd_node *par = s->top ? NULL : s->cont;
+            uint32_t opts = LYD_DUP_RECURSIVE;
+            LY_ERR rc = LY_SUCCESS;
+
+            if (!sf) {
+                printf("x");
+            } else {
+                if ((arg == 1) || (arg == 4)) {
+                    opts |= LYD_DUP_NO_LYDS;
+                } else if (arg == 2) {
+                    opts |= LYD_DUP_WITH_PARENTS;
+                }
+                if (s->top) {
+                    /* duplicates without parent, then merged into the siblings */
+                    rc = lyd_dup_siblings(sf, NULL, opts, &dup);
+                    if (!rc && dup) {
+                        if (s->first) {
+                            rc = lyd_insert_sibling(s->first, dup, &s->first);
+                        } else {
+                            s->first = dup;
+                        }
+                    }
+                } else if (arg >= 3) {
+                    LY_LIST_FOR(sf, it) {
+                        rc = lyd_dup_single(it, (struct lyd_node_inner *)par, opts, &dup);
+                        if (rc) {
+                            break;
+                        }
+                    }
+                } else {
+                    rc = lyd_dup_siblings(sf, (struct lyd_node_inner *)par, opts, &dup);
+                }
+                /* identities of the duplicates, in source order */
+                collect(s, bad);
+                LY_LIST_FOR(sf, it) {
+                    for (int i = 0; i < s->ninst; i++) {
+                        if (!s->inst[i]->priv && !lyd_compare_single(it, s->inst[i], 0) && (nn < MAXN)) {
+                            nkey[nn] = nkey[node_id(it)];
+                            s->inst[i]->priv = (void *)(intptr_t)(nn + 1);
+                            ++nn;
+                            break;
+                        }
+                    }
+                }
+                bad[0] = 0;
+                printf(rc ? "E" : "+");
+            }
         } else if (tok[0] == 's') {
             if (chain || (arg < 0) || (arg >= s->ninst)) {
                 printf("x");
@@ -817,11 +904,13 @@ run_lyds(struct vcase *c)
         lyd_free_tree(pool[i]);
     }
     lyd_free_siblings(chain);
+    lyd_free_all(s->srcfirst);
     if (s->top) {
         lyd_free_all(s->first);
     } else {
         lyd_free_all(s->cont);
         lyd_free_all(s->scratch);
+        lyd_free_all(s->src);
     }
     free(s);
 }
